@@ -20,6 +20,11 @@ Proof. intros. unfold brk_run. now rewrite fold_left_app. Qed.
 
 Definition is_some {T} (o : option T) : bool := match o with Some _ => true | None => false end.
 
+(* With context=self._context.copy() (HEAD) the callback asks the proxy's own session: it sees
+   the application exactly when there is one - whatever session the proxy was created in. *)
+Lemma sees_own_app : forall e, get_app_or_none (cb_session true e) e = app e.
+Proof. intros e. unfold get_app_or_none, cb_session. now rewrite Nat.eqb_refl, andb_true_r. Qed.
+
 (* ---- steps that only touch buffer/queue/collecting ---- *)
 Definition quiet (l : label) : bool :=
   match l with LW _ _ | LFlush _ | LClose | LFGet | LFNowait => true | _ => false end.
@@ -82,6 +87,7 @@ Proof.
       * rewrite otext_app, concat_app, It. cbn. now rewrite app_nil_r.
       * rewrite forallb_app, Io. cbn. rewrite Ir. reflexivity.
   - (* LoopStep *)
+    unfold loop_step.
     destruct (lclosed (en s)); [constructor; assumption|]. rewrite Il. constructor; assumption.
   - (* Render *)
     rewrite Ia. cbn. constructor; assumption.
@@ -234,8 +240,9 @@ Proof.
     + unfold brk_inv. rewrite brk_run_app, B1.
       destruct (active (ch s)); cbn; eexists; (split; [reflexivity|intros; discriminate]).
   - (* LoopStep *)
+    unfold loop_step.
     rewrite Io. destruct (loopq (en s)) as [|t q] eqn:Lq; [exact Ifull|].
-    rewrite Ia. cbn [andb].
+    rewrite sees_own_app, Ia. cbn [andb].
     destruct (running (en s) || negb (fdone (ch s) (lastf (ch s)))) eqn:G.
     + destruct (submit_facts (running (en s)) (cpr_pending (cp s)) (PWrite t) (ch s) (out s) C Iok Ib) as [T [Ok' B']]. cbn zeta in *.
       destruct (submit (running (en s)) (cpr_pending (cp s)) (PWrite t) (ch s) (out s)) as [c' o']. cbn [fst snd] in *.
@@ -385,7 +392,7 @@ Qed.
 (* ---- the flush thread never dies ---- *)
 Lemma no_crash_step : forall s l, fth (px s) <> FCrash -> fth (px (step s l)) <> FCrash.
 Proof.
-  intros s l F. destruct l; cbn [step px]; try exact F;
+  intros s l F. destruct l; cbn [step px]; rewrite ?loop_step_px; try exact F;
     try (solve [repeat (match goal with
       | |- context [if ?b then _ else _] => destruct b
       | |- context [match ?x with _ => _ end] => destruct x
